@@ -233,11 +233,10 @@ func c07R3(p *core.Program, r *core.Report, pl *pipeline) {
 	info := s.Info()
 	ok := false
 	for _, c := range core.CallsTo(info, s.Body, true, "os.OpenFile", "os.Create", "os.WriteFile") {
-		jc := core.AsCall(info, c.Args[0], "path/filepath.Join", "path.Join")
-		if jc != nil && len(jc.Args) == 2 {
-			fld := core.FieldOf(info, jc.Args[0])
-			name, isC := core.ConstString(info, jc.Args[1])
-			ok = fld != nil && fld.Name() == "Dir" && isC && name == "gengo.sum"
+		if ops := joinOperands(p, s, c.Args[0]); len(ops) == 2 {
+			fld := core.FieldOf(ops[0].F.Info(), ops[0].E)
+			name, isC := core.ConstString(ops[1].F.Info(), ops[1].E)
+			ok = fld != nil && fld.Name() == "Dir" && ops[0].F == s && isC && name == "gengo.sum"
 		}
 	}
 	r.Check(ok, rule, s, "the sum file is written at <Dir>/gengo.sum", s.Node().Pos(), "filepath.Join(f.Dir, \"gengo.sum\")", "Save writes to another path than Join(Dir, \"gengo.sum\")")
